@@ -91,8 +91,11 @@ def same(a, b):
     return type(a) is type(b) and a == b
 
 
-def apply_stack(bib, value, fs, inplace):
-    """Run the real middlewares; returns (outcome, result value, others_untouched)."""
+def apply_stack(bib, value, fs, inplace, history=False):
+    """Run the real middlewares; returns (outcome, result value, others_untouched).
+
+    history=True: the entry has already been through all three middlewares (its metadata says so) and its month
+    was edited afterwards; the result must not depend on that."""
     mw = bib.middlewares
     cls = {"int": mw.MonthIntMiddleware, "abbr": mw.MonthAbbreviationMiddleware, "long": mw.MonthLongStringMiddleware}
     M = bib.model
@@ -102,6 +105,13 @@ def apply_stack(bib, value, fs, inplace):
     fields.append(M.Field("year", "1"))
     lib = bib.Library([M.Entry("article", "k", fields), M.String("month", "jan"), M.ImplicitComment("march")])
     try:
+        if history:
+            e0 = lib.entries[0]
+            keep = [f for f in e0.fields]
+            e0.fields = [M.Field("title", "May 12"), M.Field("month", "dec"), M.Field("year", "1")]
+            for f in ("long", "int", "abbr"):
+                lib = cls[f](allow_inplace_modification=inplace).transform(lib)
+            lib.entries[0].fields = keep
         for f in fs:
             lib = cls[f](allow_inplace_modification=inplace).transform(lib)
     except Exception as e:
@@ -137,9 +147,9 @@ def _chunk(lines):
     for line in lines:
         e = core.parse_export(line)
         v0, want = conc(e["v0"]), conc(e["v"])
-        for inplace in (True, False):
+        for inplace, history in ((True, False), (False, False), (False, True)):
             out["n"] += 1
-            oc, got, others = apply_stack(bib, v0, e["fs"], inplace)
+            oc, got, others = apply_stack(bib, v0, e["fs"], inplace, history)
             clause = ""
             if oc != "ok":
                 clause = "total"
@@ -150,7 +160,7 @@ def _chunk(lines):
                 clause = "others_untouched"
             if clause:
                 out["mism"].append({"clause": clause, "input": {"kind": "stack", "value": show(v0), "abstract": e["v0"],
-                                                               "fs": e["fs"], "inplace": inplace},
+                                                               "fs": e["fs"], "inplace": inplace, "history": history},
                                     "observed": {"outcome": oc, "value": show(got)}, "expected": {"outcome": "ok", "value": show(want)}})
         if not out["samples"] and e["v0"]["t"] == "full":
             out["samples"].append({"value": show(v0), "middlewares": e["fs"], "result": show(want)})
@@ -206,7 +216,7 @@ def run(chk: core.Check):
         for m in o["mism"]:
             chk.mismatch(m["clause"], m["input"], m["observed"], m["expected"], signature=sig_of(m),
                          spec={"module": "Month", "operator": "Op/Decl"}, kind="month_stack")
-    if n != 2 * res.exported or n == 0:
+    if n != 3 * res.exported or n == 0:
         raise core.MachineryError("C15 export/replay count mismatch")
 
     # ---- T3 ---------------------------------------------------------------
@@ -244,7 +254,7 @@ def replay(rec, chk):
     inp = rec["input"]
     import ast
     v = ABSENT if inp["value"] == "<absent>" else ast.literal_eval(inp["value"].replace("nan", "None"))
-    oc, got, others = apply_stack(bib, v, inp["fs"], inp["inplace"])
+    oc, got, others = apply_stack(bib, v, inp["fs"], inp["inplace"], inp.get("history", False))
     obs = {"outcome": oc, "value": show(got)}
     exp = rec["expected"]
     if isinstance(exp, dict) and "value" in exp:
